@@ -1,15 +1,258 @@
-"""C08 - persist-before-act; no visible regress (work in progress header; see the final docstring)."""
+"""C08 - Persist-before-act: durable state leads side effects; no visible regress.
+
+Theorem side (coq/c08, project Coercion.C08 on top of the frozen engine core coq/engine):
+  MonC08.v      the formal statement of the property over an observed trace (no proofs):
+                  mon_persist   (a) EvStart a => durable image shows a (Running, n), n = invocations of this run so far;
+                                (b) every attempt's result is durable (write (Running, n+1, lastok = outcome ok) on top of
+                                    (Running, n)) before the next attempt, the next action of the sequence, the terminal
+                                    write; a timed-out attempt may be recorded while the plugin is still inside (End owed);
+                                (c) EvRelease fin => plan durably terminal, fin = durable image (every object, reason);
+                                    afterwards no durable change, re-reads = fin;
+                                (e) no write moves a block / sequence / sequence action out of durable Completed / Failed;
+                  mon_reads     (d) consecutive snapshots (polls, released plan): Completed / Failed blocks, sequences and
+                                    sequence actions keep their status;
+                  mon_explained the checkable part of the read hypothesis of (d): every snapshot cell is explained by the
+                                durable history of its object at positions that never go backwards (look-ahead: one write
+                                per object that returned but is not logged yet).
+  props/C08.v   c08_persist_before_act (every shape, every accepted trace: mon_persist holds), its readable corollaries
+                c08_start_durably_running and c08_release_after_terminal_write, image_monotone (no step of the automaton)
+                and image_monotone_trace, c08_no_visible_regress (mon_reads under the explicit read hypothesis).
+                Proof: product invariant R (automaton state x monitor state) + reachable-state invariant binv, kept by
+                every epsilon-move, every handler and the stutter rule (AutoLemmas.product_run).
+Correspondence (every run): real engine traces (profiles persist / attempts / mixed, a poller calling Workstream.Plan every
+  ~200 us) accepted by the automaton, and the three monitors evaluated on each of them inside Coq.
+Thorough tier only: "write failure is fatal" (harness/cmd/c08fatal): a child process whose vault fails the k-th Update* must
+  exit without releasing a waiter and without a further plugin invocation that depends on the failed write; k swept over all
+  writes of small plans.
+"""
+import json
+import os
+import re
+
 from props import engine_common as ec
+from vf import framework as fw
+
+CODES = {
+    "mon_persist_diag": {
+        1: "(a) plugin invoked while its action is not durably (Running, n) with n = invocations so far",
+        2: "(b) plugin invoked while an earlier invocation of the action is inside the plugin or its result is not durable",
+        3: "(b) an action of a sequence starts while an earlier action's result is not durable",
+        4: "a run of an action begins (Running, 0) with a result of the previous run not durable",
+        5: "(b) an attempt write that is not exactly the record of the next attempt",
+        6: "(b) the record of an attempt contradicts the plugin's outcome",
+        7: "(b) terminal write of an action with an un-recorded result",
+        8: "(b) terminal write of an action changes the durable attempt record",
+        9: "(e) a write moves a block / sequence / sequence action out of a durable Completed / Failed",
+        10: "(c) the durable image changes after Wait returned",
+        11: "(c) Wait returned before the plan's terminal write",
+        12: "(c) the plan Wait returned differs from the durable image",
+        13: "(c) a re-read after Wait differs from the plan Wait returned",
+        14: "plugin End without a Start (malformed log)",
+        15: "(c) the plan Wait returned differs from the durable image in the failure reason only",
+    },
+    "mon_reads_diag": {1: "(d) a polled snapshot shows a Completed / Failed block, sequence or sequence action in another status"},
+    "mon_explained_diag": {1: "a polled snapshot shows a cell that the durable history of that object does not explain "
+                              "(read hypothesis of c08_no_visible_regress)"},
+}
+
+NOT_COVERED = [
+    "Not covered: durability below the Update* return (SQLite / WAL / fsync); recovery (resumed runs) - C09/C10; "
+    "nothing Running in the released plan and no plugin in flight at the release - C04 (mon_final)",
+    "clause (d) is PROVED under the explicit read hypothesis of c08_no_visible_regress (each snapshot cell = the durable "
+    "cell after some prefix, prefixes monotone per object); the hypothesis is checked on every real trace by mon_explained "
+    "and (d) itself by mon_reads; polls sample the store every ~200 us, clause (e) (durable form) is checked on every write",
+    "check actions are excluded from (d)/(e) by the property text (continuous re-runs reset them)",
+]
+
+
+MONS = ["mon_persist_diag", "mon_reads_diag", "mon_explained_diag"]
+
+# ---- load disturbance: an invocation the plugin finished in time but whose answer reached the engine after the deadline ----
+# The harness logs End (and decides the outcome from ctx.Err()) just BEFORE the plugin returns; the answer then travels
+# through a channel to the engine goroutine, which selects between it and the attempt's deadline.  On a loaded machine
+# the deadline of a short-timeout action (15-25 ms, profile `attempts`) can pass between the two: the log says "ok", the
+# engine records a timeout.  Signature: End ok, then the record (Running, n, lastok=false) of that attempt at least one
+# timeout after its Start.  Such a run is re-run (fresh schedule) and excluded like a late start if it persists; the
+# same signature with LESS than one timeout elapsed is not excused.
+_GRP = ["bypass", "pre", "cont", "post", "deferred"]
+_EV = re.compile(r"^#\d+ \+(\d+)us (Start|End|Write) (\S+)(?: (\S+))?(?: n=(\d+) lastok=(true|false))?")
+
+
+def _human(key):
+    t = key.split("/")
+    if t[0] == "s":
+        return "block%s.seq%s[%s]" % (t[1], t[2], t[3])
+    sc = "plan" if t[1] == "-1" else "block%s" % t[1]
+    return "%s.%s[%s]" % (sc, _GRP[int(t[2])], t[3])
+
+
+def _load_disturbed(c):
+    short = {_human(k): v for k, v in ((c.get("input", {}).get("spec") or {}).get("short_timeouts_ms") or {}).items()}
+    if not short:
+        return False
+    start, ended = {}, {}
+    for e in (c.get("observed", {}).get("events") or []):
+        m = _EV.match(e)
+        if not m:
+            continue
+        t, kind, path, a4, n, ok = int(m.group(1)), m.group(2), m.group(3), m.group(4), m.group(5), m.group(6)
+        if kind == "Start":
+            start[path], ended[path] = t, None
+        elif kind == "End":
+            ended[path] = a4
+        elif kind == "Write" and a4 == "Running" and n and int(n) >= 1 and ok == "false":
+            if ended.get(path) == "ok" and path in short and path in start and t - start[path] >= short[path] * 1000:
+                return True
+            ended[path] = None
+    return False
+
+
+_orig_harness = ec._harness
+
+
+def _harness(ctx, profile, n, out_name, extra_args=(), seed=None):
+    cases = _orig_harness(ctx, profile, n, out_name, extra_args, seed)
+    if not cases:
+        return cases
+    base = [a for a in extra_args if a == "-poll"]
+    for k, c in enumerate(cases):
+        tries = 0
+        while _load_disturbed(c) and tries < 3:
+            tries += 1
+            got = _orig_harness(ctx, c["input"]["profile"], 1, "rerun_%s_%d.jsonl" % (c["id"], tries),
+                                base + ["-only", str(c["input"]["index"])], seed=c["input"].get("seed"))
+            if not got:
+                break
+            got[0].setdefault("dist", {})["load_reruns"] = tries
+            c = got[0]
+        if _load_disturbed(c):
+            c["dist"]["late_start"] = True          # excluded, counted in excluded_late_start
+            c["dist"]["load_disturbed"] = True
+        cases[k] = c
+    return cases
+
+
+ec._harness = _harness
+
+
+def _codes(m, diag):
+    """[(code, event index | None)] of one monitor result ([0] = holds; mon_persist_diag lists up to 6 violations)."""
+    if not diag or diag[0] == 0:
+        return []
+    if m == "mon_persist_diag":
+        return [(diag[i], diag[i + 1] if i + 1 < len(diag) else None) for i in range(0, len(diag), 2)]
+    return [(diag[0], diag[1] if len(diag) > 1 else None)]
+
+
+def _classes(res):
+    """{(monitor, code): [(case, result, event index)]} over all cases on which a monitor is false (a case is in every
+    class one of its violations belongs to)."""
+    out = {}
+    seen = set()
+    for m, lst in (res.get("mon_bad") or {}).items():
+        for c, r in lst:
+            if (c["id"], m) in seen:
+                continue
+            seen.add((c["id"], m))
+            got = set()
+            for code, idx in _codes(m, r[1 + MONS.index(m)]):
+                if code in got:
+                    continue
+                got.add(code)
+                out.setdefault((m, code), []).append((c, r, idx))
+    return out
+
+
+def _patch_evidence(ctx, extra):
+    path = os.path.join(fw.ROOT, "evidence", ctx.pid + ".json")
+    try:
+        ev = json.load(open(path))
+    except Exception:
+        return
+    ev["coverage"].update(extra)
+    ev["violations"] = len(ctx.violations)
+    ev["wall_s"] = round(__import__("time").time() - ctx.t0, 2)
+    with open(path, "w") as f:
+        json.dump(ev, f, indent=1, default=str)
 
 
 def run(ctx):
-    ec.run_engine_check(
+    mons = [("mon_persist_diag", "list"), ("mon_reads_diag", "list"), ("mon_explained_diag", "list")]
+    res = ec.run_engine_check(
         ctx,
-        profile=[("persist", 200, 3000), ("attempts", 60, 800), ("mixed", 60, 1200)],
+        profile=[("persist", 200, 4000), ("attempts", 60, 1000), ("mixed", 60, 1500), ("final", 48, 800), ("cont", 32, 500)],
         n_quick=0, n_thorough=0,
         extra_header="From Coercion.C08 Require Import MonC08.",
-        monitors=[("mon_persist_diag", "list"), ("mon_reads_diag", "list"), ("mon_explained_diag", "list")],
+        monitors=mons,
         release_obligation=False,
         harness_args=["-poll"],
+        multi_quick=24, multi_thorough=400,
         proj="c08",
+        rule_extra="Every trace carries EvRead snapshots of a poller (Workstream.Plan every ~200 us).",
+        not_covered=NOT_COVERED,
     )
+    if not res:
+        return
+    # one VIOLATION per distinct (monitor, code) class, smallest case first (engine_common reported the smallest case
+    # overall; the classes it did not show get their own replay: E3 / E4 of the pre-fix tree differ from S4 this way)
+    classes = _classes(res)
+    hist = {}
+    reported = set()
+    for rel in ctx.violations:
+        try:
+            rp = json.load(open(os.path.join(fw.ROOT, rel)))
+        except Exception:
+            continue
+        cr = rp.get("check_result") or []
+        for k, (m, _) in enumerate(mons):
+            if len(cr) > 1 + k and cr[1 + k] and cr[1 + k][0] != 0:
+                reported.add((m, cr[1 + k][0]))          # the first violation of that trace
+    for (m, code), lst in sorted(classes.items(), key=lambda x: (x[0][0], x[0][1] or 0)):
+        hist["%s code %s: %s" % (m, code, CODES.get(m, {}).get(code, "?"))] = len(lst)
+        if (m, code) in reported:
+            continue
+        lst.sort(key=lambda x: ec._size(x[0]))
+        c, r, idx = lst[0]
+        k = MONS.index(m)
+        ctx.violation(ec._replay_obj(
+            ctx, c, "monitor-false",
+            "%s = %s: %s; offending event #%s; %d failing traces of this class"
+            % (m, r[1 + k], CODES.get(m, {}).get(code, "?"), idx, len(lst)),
+            r, mons, dict(failing_monitor=m, failing_code=code, offending_event_index=idx,
+                          offending_event=(c["observed"]["events"][idx][:400] if idx is not None and idx < len(c["observed"]["events"]) else None),
+                          failing_cases=[x[0]["id"] for x in lst[:30]])))
+    extra = dict(violation_classes=hist, monitor_codes=CODES)
+    reads = [c["dist"].get("kinds", {}).get("R", 0) for c in res["live"]]
+    extra["snapshots_per_trace"] = fw.histogram([(x // 5) * 5 for x in reads])
+    extra["snapshots_total"] = sum(reads)
+    extra["writes_total"] = sum(c["dist"].get("kinds", {}).get("W", 0) for c in res["live"])
+    extra["plugin_invocations_total"] = sum(c["dist"].get("kinds", {}).get("S", 0) for c in res["live"])
+
+    if ctx.tier == "thorough":
+        extra["write_failure_is_fatal"] = _fatal(ctx)
+    _patch_evidence(ctx, extra)
+
+
+def _fatal(ctx):
+    """Thorough: a vault that fails the k-th Update* - the process must exit (log.Fatalf) without releasing a waiter and
+    without a plugin invocation that depends on the failed write."""
+    n = int(os.environ.get("C08_FATAL_PLANS", "40"))
+    cases = ctx.harness("c08fatal", ["-n", str(n)], out_name="cases_fatal.jsonl", timeout=3000)
+    if cases is None:
+        return dict(ran=False)
+    bad = [c for c in cases if c["observed"].get("verdict") != "ok"]
+    ctx.oblige("write failure is fatal: %d (plan, k) crash points, every one exits without a dependent invocation"
+               % len(cases), not bad)
+    if bad:
+        bad.sort(key=lambda c: (c["dist"].get("writes", 0), c["dist"].get("k", 0)))
+        c = bad[0]
+        ctx.violation(dict(kind="write-failure-not-fatal", case=c["id"], input=c["input"], observed=c["observed"],
+                           note=c.get("note", ""), failing_cases=[x["id"] for x in bad[:30]],
+                           why="the vault failed Update* number k and the engine did not stop: " + str(c["observed"].get("verdict"))))
+    return dict(ran=True, plans=len({c["input"]["plan"] for c in cases}), crash_points=len(cases), failing=len(bad),
+                failed_write_kind=fw.histogram(c["dist"].get("kind") for c in cases),
+                exit_codes=fw.histogram(c["observed"].get("exit") for c in cases),
+                verdicts=fw.histogram(c["observed"].get("verdict") for c in cases),
+                strict_plans=sum(1 for c in cases if c["dist"].get("strict")),
+                samples=[dict(id=c["id"], k=c["dist"].get("k"), failed=c["observed"].get("failed"),
+                              after=c["observed"].get("after_failure")) for c in cases[:3]])
